@@ -56,7 +56,33 @@ def run(d, pid, tier="quick"):
     finally:
         sh("git -C /repo checkout -- .")
 
-def keep(d, pid, name, tier="quick"):
+def run_wt(d, pid, tier="quick"):
+    """like run(), but on a scratch worktree of /repo's HEAD with the patch applied (VERIF_REPO): several can run at once"""
+    d = os.path.abspath(d)
+    wt = tempfile.mkdtemp(prefix="mutwt_", dir="/tmp")
+    os.rmdir(wt)
+    ev = tempfile.mkdtemp(prefix="mutev_", dir="/tmp")
+    try:
+        r = sh("git -C /repo worktree add --detach %s HEAD" % wt)
+        assert r.returncode == 0, r.stdout
+        r = sh("git -C %s apply %s/patch.diff" % (wt, d))
+        if r.returncode != 0:
+            print("patch does not apply:", r.stdout.decode()); return 3
+        env = dict(os.environ, VERIF_REPO=wt, VERIF_EVIDENCE_DIR=ev, VERIF_REPLAY_DIR=ev)
+        r = sh("cd %s && ./check %s --tier %s" % (os.environ.get("MUT_VERIF", "/verif"), pid, tier), env=env)
+        print(r.stdout.decode()[-3000:])
+        print("exit", r.returncode)
+        return r.returncode
+    finally:
+        sh("git -C /repo worktree remove --force %s" % wt)
+        shutil.rmtree(wt, ignore_errors=True)
+        shutil.rmtree(ev, ignore_errors=True)
+
+
+RUNNER = {"repo": None, "wt": None}
+
+
+def keep(d, pid, name, tier="quick", *also, how="repo"):
     """verify + run + copy into /verif/seeded/<name>/ with what was run recorded in meta.json"""
     import io, contextlib
     buf = io.StringIO()
@@ -66,8 +92,11 @@ def keep(d, pid, name, tier="quick"):
     if rc != 0:
         print("NOT CONFIRMED", json.dumps(ver)); return 1
     buf = io.StringIO()
+    runner = run if how == "repo" else run_wt
+    ran_as = ("git -C /repo apply patch.diff; ./check %s --tier %s; git -C /repo checkout -- ." if how == "repo" else
+              "scratch worktree of /repo HEAD + git apply patch.diff; VERIF_REPO=<worktree> ./check %s --tier %s (evidence redirected); worktree removed")
     with contextlib.redirect_stdout(buf):
-        rc = run(d, pid, tier)
+        rc = runner(d, pid, tier)
     txt = buf.getvalue()
     dst = os.path.join("/verif/seeded", name)
     os.makedirs(dst, exist_ok=True)
@@ -80,15 +109,25 @@ def keep(d, pid, name, tier="quick"):
     lines = [l for l in txt.splitlines() if l.startswith(("VIOLATION", "failing clause", "OK ", "MACHINERY", "KNOWN"))]
     meta.update({"property": pid, "confirmed_by_builder": ver,
                  "ran": ["tools/mutant.py verify (scratch worktree: git apply, 40 pinned tests, demo with/without)",
-                         "git -C /repo apply patch.diff; ./check %s --tier %s; git -C /repo checkout -- ." % (pid, tier)],
+                         ran_as % (pid, tier)],
                  "check_exit": rc, "check_output": lines[:6], "detected": rc == 1})
+    for other in also:       # checks of other properties run against the same change
+        buf = io.StringIO()
+        with contextlib.redirect_stdout(buf):
+            rc2 = runner(d, other, tier)
+        l2 = [l for l in buf.getvalue().splitlines() if l.startswith(("VIOLATION", "failing clause", "OK ", "MACHINERY", "KNOWN"))]
+        meta["ran"].append(ran_as % (other, tier))
+        meta.setdefault("other_checks", {})[other] = {"check_exit": rc2, "check_output": l2[:6], "detected": rc2 == 1}
     json.dump(meta, open(os.path.join(dst, "meta.json"), "w"), indent=1)
-    print(name, "detected" if rc == 1 else "MISSED (exit %d)" % rc, "|", "; ".join(lines[:2])[:300])
+    print(name, "detected" if rc == 1 else "MISSED (exit %d)" % rc, "|", "; ".join(lines[:2])[:300],
+          "|", {k: x["detected"] for k, x in meta.get("other_checks", {}).items()})
     return 0
 
 if __name__ == "__main__":
     if sys.argv[1] == "keep":
         sys.exit(keep(*sys.argv[2:]))
+    if sys.argv[1] == "keepwt":
+        sys.exit(keep(*sys.argv[2:], how="wt"))
     if sys.argv[1] == "verify":
         sys.exit(verify(sys.argv[2]))
     else:
